@@ -112,6 +112,19 @@ func runC13(c *fw.Ctx, idx int) fw.Result {
 			res.Count("cases_with_power_of_two_sequence_count", 1)
 		}
 		ac = makeAnnoCase(r, c.Thorough(), []string{"gb", "gff"}[r.Intn(2)], form, vp, 50, opts)
+		if form == "fasta" && len(ac.msa.Rows) >= 2 && r.Chance(0.15) {
+			// two records with one ID are two sequences: both rows are written and both are counted
+			j := r.Intn(len(ac.msa.Rows))
+			k := r.Intn(len(ac.msa.Rows))
+			if j != k && ac.msa.Rows[j].ID != ac.refID && ac.msa.Rows[k].ID != ac.refID {
+				old, nn := ac.msa.Rows[k].ID, ac.msa.Rows[j].ID
+				ac.msaTxt = strings.Replace(ac.msaTxt, ">"+ac.msa.Rows[k].Desc+"\n", ">"+nn+"\n", 1)
+				if strings.Contains(ac.msaTxt, ">"+nn+"\n") && old != nn {
+					ac.msa.Rows[k].ID, ac.msa.Rows[k].Desc = nn, nn
+					res.Count("cases_with_repeated_sequence_id", 1)
+				}
+			}
+		}
 		if form == "sam" {
 			// make SAM queries share mutations: derive them from a common mutated genome
 			ac = recurSam(r, ac)
